@@ -65,6 +65,10 @@ def gen_trees(tier, rng, plens, quick_n, thorough_n, need_nonempty=True):
         deltas = (-1, 0, 1, B + 1) if tier == "thorough" else (rng.choice((-1, 0, 1, B + 1)),)
         for dl in deltas:
             out.append((rng.choice(("S1", "D1")), (npc * P0 + dl,), P0))
+    # large piece lengths (what the automatic choice gives for big payloads)
+    M = 2 ** 20
+    for Pbig, szs in ((2 * M, (3 * M,)), (2 * M, (2 * M + 1, 5)), (M, (M + 5, 3)), (4 * M, (5 * M + 1,))):
+        out.append(("S1" if len(szs) == 1 else "D2", szs, Pbig))
     n = thorough_n if tier == "thorough" else quick_n
     shapes = ["D3", "D4", "D2n", "D2", "DN", "DNf", "DC", "DU", "D5"]
     for _ in range(n):
